@@ -114,6 +114,8 @@ impl Behaviour {
     }
 }
 
+#[cfg_attr(kani, kani::requires(current <= u32::MAX as usize))]
+#[cfg_attr(kani, kani::ensures(|r: &Result<(), ConnectionDenied>| verif::c52::post_check_limit(limit, current, r)))]
 fn check_limit(limit: Option<u32>, current: usize, kind: Kind) -> Result<(), ConnectionDenied> {
     let limit = limit.unwrap_or(u32::MAX);
     let current = current as u32;
@@ -768,4 +770,9 @@ mod tests {
             Self(g.gen_range(1..10))
         }
     }
+}
+
+#[cfg(kani)]
+pub(crate) mod verif {
+    include!(concat!(env!("LIBP2P_VERIF"), "/hooks/connection_limits_lib.rs"));
 }
